@@ -47,8 +47,7 @@ impl LocalServer {
         Ok(LocalServer { con })
     }
 
-    fn get_latest_version_id(&mut self) -> Result<VersionId> {
-        let t = self.txn()?;
+    fn get_latest_version_id(t: &rusqlite::Transaction<'_>) -> Result<VersionId> {
         let result: Option<StoredUuid> = t
             .query_row(
                 "SELECT value FROM data WHERE key = 'latest_version_id' LIMIT 1",
@@ -59,14 +58,12 @@ impl LocalServer {
         Ok(result.map(|x| x.0).unwrap_or(NIL_VERSION_ID))
     }
 
-    fn set_latest_version_id(&mut self, version_id: VersionId) -> Result<()> {
-        let t = self.txn()?;
+    fn set_latest_version_id(t: &rusqlite::Transaction<'_>, version_id: VersionId) -> Result<()> {
         t.execute(
             "INSERT OR REPLACE INTO data (key, value) VALUES ('latest_version_id', ?)",
             params![&StoredUuid(version_id)],
         )
         .context("Update task query")?;
-        t.commit()?;
         Ok(())
     }
 
@@ -94,8 +91,10 @@ impl LocalServer {
         Ok(r)
     }
 
-    fn add_version_by_parent_version_id(&mut self, version: Version) -> Result<()> {
-        let t = self.txn()?;
+    fn add_version_by_parent_version_id(
+        t: &rusqlite::Transaction<'_>,
+        version: Version,
+    ) -> Result<()> {
         t.execute(
             "INSERT INTO versions (version_id, parent_version_id, data) VALUES (?, ?, ?)",
             params![
@@ -104,16 +103,12 @@ impl LocalServer {
                 version.history_segment
             ],
         )?;
-        t.commit()?;
         Ok(())
     }
 }
 
 #[async_trait(?Send)]
 impl Server for LocalServer {
-    // TODO: better transaction isolation for add_version (gets and sets should be in the same
-    // transaction)
-
     async fn add_version(
         &mut self,
         parent_version_id: VersionId,
@@ -122,8 +117,15 @@ impl Server for LocalServer {
         // no client lookup
         // no signature validation
 
+        // The check of the parent, the new version and the new latest version id all go in one
+        // transaction, which holds the write lock from the start: another handle on the same
+        // database cannot add a version in between, and a failure leaves no half-added version.
+        let t = self
+            .con
+            .transaction_with_behavior(rusqlite::TransactionBehavior::Immediate)?;
+
         // check the parent_version_id for linearity
-        let latest_version_id = self.get_latest_version_id()?;
+        let latest_version_id = Self::get_latest_version_id(&t)?;
         if latest_version_id != NIL_VERSION_ID && parent_version_id != latest_version_id {
             return Ok((
                 AddVersionResult::ExpectedParentVersion(latest_version_id),
@@ -134,14 +136,18 @@ impl Server for LocalServer {
         // invent a new ID for this version
         let version_id = Uuid::new_v4();
 
-        self.add_version_by_parent_version_id(Version {
-            version_id,
-            parent_version_id,
-            history_segment,
-        })?;
+        Self::add_version_by_parent_version_id(
+            &t,
+            Version {
+                version_id,
+                parent_version_id,
+                history_segment,
+            },
+        )?;
         #[cfg(gothenburgbitfactory_taskchampion_verif)]
         crate::server::verif::failpoint("local.add_version.between_insert_and_latest")?;
-        self.set_latest_version_id(version_id)?;
+        Self::set_latest_version_id(&t, version_id)?;
+        t.commit()?;
 
         Ok((AddVersionResult::Ok(version_id), SnapshotUrgency::None))
     }
